@@ -109,13 +109,14 @@ Fixpoint take_fresh (m s : id) (fr : fresh_dels) : option id * fresh_dels :=
 (* complaints about oracles / environment that make a step uncheckable or illegal *)
 Definition notes := list string.
 
-(* deliverToSubscription: the predecessor ("most recent non-expired delivery of this
-   subscription whose message is on the same topic") for an ordered, keyed message *)
+(* deliverToSubscription: the predecessor for an ordered, keyed message: the most recent
+   non-expired delivery of this subscription whose message is on the same topic and, after
+   the fix of F1, has the same ordering key *)
 Definition last_delivery (st : state) (s : sub) (m : msg) (now : time) : option del :=
   let cands := filter (fun d =>
       N.eqb (d_sub d) (s_id s) && (now <? d_expires d) &&
       match get_msg st (d_msg d) with
-      | Some dm => N.eqb (m_topic dm) (m_topic m)
+      | Some dm => N.eqb (m_topic dm) (m_topic m) && os_eqb (m_key dm) (m_key m)
       | None => false
       end) (dels st) in
   (* ORDER BY published_at DESC LIMIT 1 *)
@@ -270,8 +271,15 @@ Definition do_delay (st : state) (ids : list id) (delay : Z) (wnow : time) : sta
 Definition fuzzes := list (id * Z).
 Fixpoint fuzz_of (i : id) (fz : fuzzes) : Z :=
   match fz with [] => 0 | (j, v) :: r => if N.eqb i j then v else fuzz_of i r end.
+(* The code computes the nominal delay in float64 (math.Pow); the harness subtracts the
+   model's exact nominal delay from the observed deadline, so the float rounding error
+   shows up in the observed fuzz. [float_tol] nanoseconds of it are tolerated (assumption:
+   Go's float evaluation of min * 1.1^n stays within that distance of the exact value for
+   the delays in use, at most 10 minutes). *)
+Definition float_tol : Z := 2.
 Definition fuzz_legal (nominal fuzz : Z) : bool :=
-  (0 <=? fuzz) && (fuzz <? sec) && ((sec / 2 <? nominal) || (fuzz =? 0)).
+  (- float_tol <=? fuzz) && (fuzz <? sec + float_tol) &&
+  ((sec / 2 <? nominal + float_tol) || (Z.abs fuzz <=? float_tol)).
 
 Fixpoint nack_each (st : state) (ds : list del) (now wnow : time) (fz : fuzzes) (fr : fresh_dels)
   : state * fresh_dels * list id * notes :=
@@ -539,4 +547,5 @@ Inductive op :=
 (* controllers/delay-injector *)
 | SetDelay (name : str) (delay : Z)
 (* background jobs with the observed choice of rows *)
-| Job (j : job) (min_age : Z) (max : Z) (chosen : list id) (wnow : time) (fr : fresh_dels).
+| Job (j : job) (min_age : Z) (max : Z) (chosen : list id) (failed : bool) (wnow : time)
+      (fr : fresh_dels).   (* failed: the job's transaction returned an error *)
